@@ -180,7 +180,39 @@ theorem subcommand_ok (w : World) (s : State) (name arg : Str) (h : HistOk s) :
   unfold subcommand
   split
   · exact openItem_ok w s _ (.inr h)
-  · split <;> exact ⟨_, rfl, h, rfl, rfl⟩
+  · split
+    · split
+      · exact ⟨_, rfl, h, rfl, rfl⟩
+      · rename_i inputs _
+        have hi' : History.Inv ({ s with mode := Mode.loading, buffer := [] } : State).hist := .inr h
+        obtain ⟨s', h1, h2, _⟩ := switchTo_container w _ (.feed (newSplicer w inputs)) hi'
+        rw [h1]
+        exact ⟨_, rfl, h2.1, rfl, rfl⟩
+    · exact ⟨_, rfl, h, rfl, rfl⟩
+
+/-- `:feed <name>`: an unknown name only returns to normal mode; a configured one pushes one page. -/
+theorem subcommand_feed (w : World) (s s' : State) (name : Str) (h : HistOk s)
+    (hs : subcommand w s "feed".toList name = .ok s') :
+    s'.mode = .normal ∧ s'.buffer = [] ∧
+    ((s.feeds.find? (fun f => f.1 = name)).isNone → s'.hist = s.hist) ∧
+    ((s.feeds.find? (fun f => f.1 = name)).isSome →
+       s'.hist.index = s.hist.index + 1 ∧ s'.hist.elements.length = s.hist.index + 2) := by
+  unfold subcommand at hs
+  rw [if_neg (by decide), if_pos rfl] at hs
+  split at hs
+  · rename_i hf
+    cases hs
+    refine ⟨rfl, rfl, fun _ => rfl, ?_⟩
+    rw [hf]; intro hc; cases hc
+  · rename_i nm inputs hf
+    have hi' : History.Inv ({ s with mode := Mode.loading, buffer := [] } : State).hist := .inr h
+    obtain ⟨s1, h1, h2, _⟩ := switchTo_container w _ (.feed (newSplicer w inputs)) hi'
+    rw [h1] at hs
+    cases hs
+    refine ⟨rfl, rfl, ?_, fun _ => ?_⟩
+    · rw [hf]; intro hc; cases hc
+    · obtain ⟨a, b, _⟩ := h2.2 h
+      exact ⟨a, b⟩
 
 /-! ### `keySwitch` -/
 
@@ -353,9 +385,9 @@ theorem update_inv (w : World) (s : State) (k : Nat) (h : Inv s) :
     obtain ⟨s', e1, e2, e3, _⟩ := keySwitch_ok w s k hok
     exact ⟨s', e1, inv_normal _ e2 (by rw [e3]; exact hsel)⟩
 
-theorem start_aux (w : World) (context : Nat) (arg : Str) :
-    ∃ s, start w context arg = .ok s ∧ Inv s ∧ s.mode = .normal := by
-  obtain ⟨s', e1, e2, e3, _⟩ := openItem_ok w { context := context } (fetchUserInput w arg) (.inl ⟨rfl, rfl⟩)
+theorem start_aux (w : World) (context : Nat) (arg : Str) (feeds : List (Str × List Str)) :
+    ∃ s, start w context arg feeds = .ok s ∧ Inv s ∧ s.mode = .normal := by
+  obtain ⟨s', e1, e2, e3, _⟩ := openItem_ok w { context := context, feeds := feeds } (fetchUserInput w arg) (.inl ⟨rfl, rfl⟩)
   exact ⟨s', e1, inv_normal _ e2 (by simp [e3]), e3⟩
 
 theorem run_inv (w : World) (keys : List Nat) (s : State) (h : Inv s) :
